@@ -200,7 +200,43 @@ func genC01(r *rng, tier string, emit func(string)) {
 	_ = c
 }
 
+// Nonces found once by search (harness/devfind.go) for which TWO of the fixed-width coordinates involved in
+// one encryption have leading zero bytes ("x2y2": both coordinates of the shared point [k]P; "x1x2", "y1y2":
+// one of C1 = [k]G and one of [k]P; "x1y1": both of C1; "x2two": two leading zero bytes in x2).  Roughly one
+// nonce in 65536 each; columns: what, d, Px, Py, random stream.
+var c02RareNonces = [][5]string{
+	{"x2y2", "bdef527f431e48f0d2e1e06fcf3499a52ca70f5facb806ae28aa7c73b0a2c986", "b82beca15d39a1c58f38368279613a8edfe9f780f2253790477c4ea00b797a14", "7870b98852b5ad4ae1a0f56f0616fc0ebbf90335da10449097e3f7e7883cfc8c", "dcef7162a7c5a63e3a91f665787a7892428f32516a6375a095f28b4a38289c5452df4f4b2876c7a63e9fd05b0373ac07f314cec79cf01b722823fc2a391a23f7a43ee1f6b947a41f95d5e9bab0bda4f0"},
+	{"x2y2", "0147", "d062045840b1f4b0a64d6e6c5bc582079fc0af8c366eba632b35f5e217385b", "5032f04533c064a41a7616cbb528b168c79a247d46f1c3667e1a2f5921aca9a4", "c8fb95da698afa357cb314e0678824ef4c64b5be7731bbf865338933df7ab7b77541408cc173739319b822ae47a6880ce27b5bec9448d0584c8c0770f06ba36866894e2720483fb274dd8ac85472cb5d"},
+	{"x1x2", "bdef527f431e48f0d2e1e06fcf3499a52ca70f5facb806ae28aa7c73b0a2c986", "b82beca15d39a1c58f38368279613a8edfe9f780f2253790477c4ea00b797a14", "7870b98852b5ad4ae1a0f56f0616fc0ebbf90335da10449097e3f7e7883cfc8c", "be6cfd11d58d41fb760e8c68b91ae0b51e83b1a490892ed8c2501779a8eda42e292b23dc38770b1caceb7180a02508a4fcd8074bddb70a500e4fa85e7a27898076a1dcddc3fa1b313a8bdd43bf12c893"},
+	{"x1x2", "0147", "d062045840b1f4b0a64d6e6c5bc582079fc0af8c366eba632b35f5e217385b", "5032f04533c064a41a7616cbb528b168c79a247d46f1c3667e1a2f5921aca9a4", "780fa333823accc7d72b063813206b36a5862e7675073fd9a878c134b8f2d179136c47ea3cd281b1fd259c41a273077fd2057387e12e99669ecd9cd0b6864a87aa476c3cf4cb49270f4ffa3154108af0"},
+	{"x1y1", "bdef527f431e48f0d2e1e06fcf3499a52ca70f5facb806ae28aa7c73b0a2c986", "b82beca15d39a1c58f38368279613a8edfe9f780f2253790477c4ea00b797a14", "7870b98852b5ad4ae1a0f56f0616fc0ebbf90335da10449097e3f7e7883cfc8c", "1fba00ccfab6922cf8d0734ff60a0b75c623737140a030a0e36a7c535f46de9e0ffa2afdfc0749816e6be0bcb0f1351652817023e11b1ad79f7f51dc9f71e8efcc18151bbc220b39cd7fb9bcf007abb1"},
+	{"x1y1", "0147", "d062045840b1f4b0a64d6e6c5bc582079fc0af8c366eba632b35f5e217385b", "5032f04533c064a41a7616cbb528b168c79a247d46f1c3667e1a2f5921aca9a4", "c96e5c5f680ae5beddd89f8afb4b68fb9be28fbadb66134ff6fadaa193449ba0a42342e2dc559cfce1028dfc1c9c1055f47b36bcfc34631da472b223bf17358ac46534ed5b2e15145b5606d1fcd3773c"},
+	{"y1y2", "bdef527f431e48f0d2e1e06fcf3499a52ca70f5facb806ae28aa7c73b0a2c986", "b82beca15d39a1c58f38368279613a8edfe9f780f2253790477c4ea00b797a14", "7870b98852b5ad4ae1a0f56f0616fc0ebbf90335da10449097e3f7e7883cfc8c", "73c6eeb3b3e4113dbb691a32594835ebb788cb68ea84a9643e4dd8163ec16ce591912fb8c394b94de6b336ee38d09964a04faad38ec5ffb2bd71f96bb07c5f76970dd4fbe04bac79a5f1d591bfbf7415"},
+	{"y1y2", "0147", "d062045840b1f4b0a64d6e6c5bc582079fc0af8c366eba632b35f5e217385b", "5032f04533c064a41a7616cbb528b168c79a247d46f1c3667e1a2f5921aca9a4", "9b4e868861d952ddf0662cd04ea6210bac758a0b2e696a46c0dc463fe80e5f10414b193f8e09b988e0427a57fc9370e026ced36a27f7c1b8f87828e527359ee4e879535d375a485c8312dbcc1b98f209"},
+	{"x2two", "0147", "d062045840b1f4b0a64d6e6c5bc582079fc0af8c366eba632b35f5e217385b", "5032f04533c064a41a7616cbb528b168c79a247d46f1c3667e1a2f5921aca9a4", "96fd3b9dac4fde0ad1698ca35acbc306fcdac0713fe4e0ce3afd11285d1cd0fb7eb0e058949f075d6e341855f4120cd918539d596a679e621c55dbce9b2c9657aa5f93d0e346362b5d26683b1978f814"},
+}
+
 func genC02(r *rng, tier string, emit func(string)) {
+	for _, row := range c02RareNonces {
+		d, _ := new(big.Int).SetString(row[1], 16)
+		x, _ := new(big.Int).SetString(row[2], 16)
+		y, _ := new(big.Int).SetString(row[3], 16)
+		rnd, _ := unhx(row[4])
+		for _, mode := range []string{"c1c3c2", "c1c2c3", "asn1"} {
+			msg := r.bytes(1 + r.intn(70))
+			emit(fmt.Sprintf("sm2enc %s %s %s %s %s", bhex(x), bhex(y), mode, hx(msg), hx(rnd)))
+			var ct []byte
+			var err error
+			if mode == "asn1" {
+				ct, err = sm2.EncryptAsn1(pubFromXY(x, y), msg, &fixedRand{append([]byte{}, rnd...)})
+			} else {
+				ct, err = sm2.Encrypt(pubFromXY(x, y), msg, &fixedRand{append([]byte{}, rnd...)}, modeOf(mode))
+			}
+			if err == nil {
+				emit(fmt.Sprintf("sm2dec %s %s %s", bhex(d), mode, hx(ct)))
+			}
+		}
+	}
 	n := 40
 	if tier == "thorough" {
 		n = 600
